@@ -219,6 +219,7 @@ def run(ctx):
             return lib.cisco_collapse_vlandb(S, not catalyst)
 
         def observe(tag, so, sn, lo, ln):
+            extra_fields = None
             if getattr(fam, "single", False):
                 # the logic handles one added and one removed line per run (it asserts so): other shapes are outside its contract
                 a, b = [x for x in ln if x not in lo], [x for x in lo if x not in ln]
@@ -243,6 +244,9 @@ def run(ctx):
                     xn = [x for x in (21, 22) if x not in sn and rnd.random() < 0.25]
                     old = fam.build([fam.sep.join(x) for x in lo], bo + xo, bare_o + xo)
                     new = fam.build([fam.sep.join(x) for x in ln], bn + xn, bare_n + xn)
+                    extra_fields = {"batchOld": sorted(expand(lex_ranges(" ".join(fam.sep.join(x) for x in lo)))) if lo else [],
+                                    "batchNew": sorted(expand(lex_ranges(" ".join(fam.sep.join(x) for x in ln)))) if ln else [],
+                                    "blocksNew": sorted(bn + xn)}
                     lo, ln = lo + [[str(b)] for b in xo], ln + [[str(b)] for b in xn]
                 else:
                     old, new = fam.build([fam.sep.join(x) for x in lo], bo), fam.build([fam.sep.join(x) for x in ln], bn)
@@ -252,6 +256,7 @@ def run(ctx):
                 old, new = fam.build([fam.sep.join(x) for x in lo]), fam.build([fam.sep.join(x) for x in ln])
             rec = {"id": "%s-%d" % (tag, len(recs)), "kind": "patch", "family": fam.name, "old": [lex_ranges(fam.sep.join(x)) for x in lo],
                    "new": [lex_ranges(fam.sep.join(x)) for x in ln]}
+            rec["_sig"] = locals().get("extra_fields")
             try:
                 if len(recs) % 2:
                     # the production composition (`annet patch` / `annet deploy`): diff, grouping and patch as the caller wires them
@@ -273,6 +278,21 @@ def run(ctx):
             if so != sn and (so & sn):
                 ctx.nontrivial(json.dumps([fam.name, rec["old"], rec["new"]]))
 
+        if getattr(fam, "blocks", False) is True and fam.sep == " ":
+            # targeted (known finding): a VLAN moves from the batch line to a declaration of its own
+            for with_opts in (False, True):
+                so, sn = {21, 100}, {100}
+                lo, ln = [["21", "100"]], [["100"]]
+                old, new = fam.build([" ".join(lo[0])]), fam.build([" ".join(ln[0])], [21], [] if with_opts else [21])
+                rec = {"id": "moved-%d" % len(recs), "kind": "patch", "family": fam.name, "old": [lex_ranges("21 100")], "new": [lex_ranges("100"), [21]],
+                       "_sig": {"batchOld": [21, 100], "batchNew": [100], "blocksNew": [21]}}
+                try:
+                    _d, p = api._diff_and_patch(E.device(hw), old, new, None, None, False)
+                    rec["cmds"] = [c for c in (fam.lex(path) for path in fmt.cmd_paths(p)) if c is not None]
+                except Exception as e:
+                    rec["cmds"], rec["exc"] = [], repr(e)
+                recs.append(rec)
+                ctx.count()
         pairs = [(a, b) for a in subsets for b in subsets]
         cap = 1400 if quick else 60000
         if len(pairs) > cap:
@@ -317,7 +337,7 @@ def run(ctx):
             recs.append({"id": "col-%s-%d" % (name, len(recs)), "kind": "collapse", "set": sorted(S), "toks": lex_ranges(text), "back": real_back})
             ctx.count()
     ctx.sample({"family": recs[5]["family"], "old_lines": recs[5]["old"], "new_lines": recs[5]["new"], "cmds": recs[5]["cmds"]})
-    slim = [{k: v for k, v in r.items() if k not in ("family", "exc")} for r in recs]
+    slim = [{k: v for k, v in r.items() if k not in ("family", "exc", "_sig")} for r in recs]
     for r in slim:
         if r["kind"] == "patch":
             r["cmds"] = [{"op": c["op"], "toks": c["toks"]} for c in r["cmds"]]
@@ -343,6 +363,25 @@ def expand(toks):
 
 
 def signature_of(rec, clause):
+    sg = rec.get("_sig")
+    if sg and rec.get("kind") == "patch" and clause in ("final-set-differs", "common-vlan-removed-transiently"):
+        # ids that leave the batch lines but stay declared by a `vlan N` block of the new configuration ...
+        moved = (set(sg["batchOld"]) - set(sg["batchNew"])) & set(sg["blocksNew"])
+        S = set(sg["batchOld"]) | set()          # (old blocks are a subset of the old batch ids or extra single ids listed in rec["old"])
+        for toks in rec["old"]:
+            S |= expand(toks)
+        want = set()
+        for toks in rec["new"]:
+            want |= expand(toks)
+        dev = set(S)
+        for c in rec["cmds"]:
+            if c["op"] == "add":
+                dev |= expand(c["toks"])
+            elif c["op"] == "del":
+                dev -= expand(c["toks"])
+        # ... and nothing else is wrong: the device ends exactly those ids short
+        if moved and want - dev and (want - dev) <= moved and not (dev - want):
+            return "huawei vlan batch: an id that leaves the batch lines but stays declared by a `vlan N` block is removed by `undo vlan batch`"
     if rec.get("kind") == "patch" and "multi_all" in rec.get("family", "") and any(c["op"] == "delall" for c in rec["cmds"]):
         if any(l in rec["new"] for l in rec["old"]):
             return "huawei multi_all: a line removed next to an unchanged line of the same key gives `undo ... vlan all`"
